@@ -570,6 +570,16 @@ class DateTimeFieldFormat(AbstractFieldFormat):
         self.strptime_format = rule
         for human_readyble_item, strptime_item in DateTimeFieldFormat._HUMAN_READABLE_TO_STRPTIME_TUPLES:
             self.strptime_format = self.strptime_format.replace(human_readyble_item, strptime_item)
+        try:
+            time.strptime("", self.strptime_format)
+        except ValueError:
+            # The empty text is no date, so this is the expected outcome for a usable format.
+            pass
+        except re.error as error:
+            raise errors.InterfaceError(
+                "date format %s must contain each of DD, MM, YYYY, YY, hh, mm and ss at most once: %s"
+                % (_compat.text_repr(rule), error)
+            )
         self._has_time = any(
             directive in self.strptime_format for directive in DateTimeFieldFormat._STRPTIME_TIME_DIRECTIVES
         )
